@@ -280,6 +280,6 @@ def wrap_multiples(tier):
 def parts(tier):
     return [
         Enum("wrapped-default-options-every-curve-count", wrap_multiples),
-        Hyp("generated", cases, quick=3000, thorough=120000),
+        Hyp("generated", cases, quick=6000, thorough=120000),
         Hyp("generated-long", lambda: cases(max_rows=40), quick=300, thorough=20000),
     ]
